@@ -3748,13 +3748,13 @@ class TextWrappingSerializer(PrettySerializer):
             content.rstrip()
         ) and self._whitespace_is_legit_after_node(last_node):
             # text fits perfectly
-            if self._line_offset == 0:
+            if self.writer.offset == 0:
                 content = self._level * self.indentation + content.lstrip()
             self.writer(content.rstrip() + "\n")
 
         elif self._available_space > len(content):
             # text fits current line
-            if self._line_offset == 0:
+            if self.writer.offset == 0:
                 content = self._level * self.indentation + content.lstrip()
 
             if (
@@ -3786,7 +3786,7 @@ class TextWrappingSerializer(PrettySerializer):
         lines: list[str] = []
         nodes = self._unwritten_text_nodes
 
-        if self._line_offset == 0:
+        if self.writer.offset == 0:
             # just a side note: this branch would also be interesting if
             # len(content) > self._width  # noqa: E800
             # and self._whitespace_is_legit_before_node(nodes[0])
@@ -3851,7 +3851,7 @@ class TextWrappingSerializer(PrettySerializer):
             and self._whitespace_is_legit_after_node(last_node)
         ):
             lines.append("")
-        if self._line_offset == 0 and lines[0] == "":
+        if self.writer.offset == 0 and lines[0] == "":
             lines.pop(0)
         if len(lines) >= 2 and lines[-1] == "":
             lines[-2] = lines[-2].rstrip()
